@@ -3,6 +3,7 @@ package props
 import (
 	"bytes"
 	"fmt"
+	"strings"
 
 	"errsim/gen"
 	"errsim/obs"
@@ -147,6 +148,12 @@ func (c01) Run(t *tape.Tape, tier Tier) *Result {
 			m1eqm2++
 		} else {
 			m1nem2++
+			// the first re-encoding may differ from what the origin sent only
+			// in the details (and payload) of barrier and secondary-error
+			// layers, which embed a rendering of their hidden error
+			if culprit, e, o := firstHopDrift(d.Msg.Data, d.ReData); culprit != "" {
+				res.add(Violation{Prop: "C01", Oracle: "wire-drift-at-first-hop", Culprit: culprit, Expected: e, Observed: o, Where: where})
+			}
 		}
 	}
 	sim.Run()
@@ -157,6 +164,57 @@ func (c01) Run(t *tape.Tape, tier Tier) *Result {
 	res.Nontrivial = len(want) >= 2 && sim.Stats.Deliveries >= 1
 	res.Key = fmt.Sprintf("%s|%s|d%d", spec.Shape(), lens, sim.Stats.Duplicates)
 	return res
+}
+
+// firstHopDrift compares the message a process received with its re-encoding
+// of the decoded error, node by node: family, type name, message, message
+// type and payload must be equal everywhere, the reportable details
+// everywhere except at barrier and secondary-error layers.
+func firstHopDrift(in, out []byte) (culprit, exp, obsd string) {
+	ea, err1 := world.ParseWire(in)
+	eb, err2 := world.ParseWire(out)
+	if err1 != nil || err2 != nil {
+		return "", "", ""
+	}
+	var na, nb []*world.WireNode
+	world.WalkWire(ea, false, func(w *world.WireNode) { na = append(na, w) })
+	world.WalkWire(eb, false, func(w *world.WireNode) { nb = append(nb, w) })
+	if len(na) != len(nb) {
+		return "structure", fmt.Sprint(len(na), " nodes"), fmt.Sprint(len(nb), " nodes")
+	}
+	for i := range na {
+		a, b := na[i], nb[i]
+		da, db := a.Details(), b.Details()
+		fam := world.ShortKey(a.Family())
+		if fam == "syscall.Errno" && strings.HasSuffix(b.Family(), "errbase.OpaqueErrno") && a.Message() == b.Message() {
+			// an errno of another platform is kept as (and forwarded under
+			// the name of) its stand-in
+			continue
+		}
+		switch {
+		case a.Path != b.Path:
+			return "structure:" + fam, a.Path, b.Path
+		case a.Family() != b.Family():
+			return "family:" + fam, a.Family(), b.Family()
+		case da.OriginalTypeName != db.OriginalTypeName:
+			return "type-name:" + fam, da.OriginalTypeName, db.OriginalTypeName
+		case a.Message() != b.Message():
+			return "message:" + fam, fmt.Sprintf("%q", a.Message()), fmt.Sprintf("%q", b.Message())
+		case a.Wrapper != nil && b.Wrapper != nil && a.Wrapper.MessageType != b.Wrapper.MessageType:
+			return "message-type:" + fam, fmt.Sprint(a.Wrapper.MessageType), fmt.Sprint(b.Wrapper.MessageType)
+		}
+		if isBarrierOrSecondary(a.Family()) {
+			continue
+		}
+		if fmt.Sprintf("%q", da.ReportablePayload) != fmt.Sprintf("%q", db.ReportablePayload) {
+			return "details:" + fam, short(fmt.Sprintf("%q", da.ReportablePayload)), short(fmt.Sprintf("%q", db.ReportablePayload))
+		}
+		if (da.FullDetails == nil) != (db.FullDetails == nil) ||
+			(da.FullDetails != nil && (da.FullDetails.TypeUrl != db.FullDetails.TypeUrl || !bytes.Equal(da.FullDetails.Value, db.FullDetails.Value))) {
+			return "payload:" + fam, "as received", "differs"
+		}
+	}
+	return "", "", ""
 }
 
 // wireDiffCulprit finds the family of the first wire node that differs
